@@ -96,7 +96,7 @@ func ExploreNotify(newWorld func(sc NotifyScenario) NotifyWorld, initData string
 	sc NotifyScenario, max int, pick func(int) int, emit func(NotifyCase)) int {
 	order := map[string]int{"0": 0, "1": 1, "2": 2, "99": 99}
 	two := sc.CallsB > 0
-	var resA, resB []notifyRes
+	var curA, curB *[]notifyRes
 	var world NotifyWorld
 	var ctx context.Context
 	// releases, once a run has been judged, the waiters it left blocked (they would otherwise pile up
@@ -108,7 +108,11 @@ func ExploreNotify(newWorld func(sc NotifyScenario) NotifyWorld, initData string
 		ctx, cancel = context.WithCancel(context.Background())
 		ctx1, cancel1 := context.WithCancel(context.Background())
 		release = func() { cancel(); cancel1() }
-		resA, resB = nil, nil
+		// results and world of THIS run: the waiters of an earlier run, released after it was judged, must
+		// not write into the results of the current one
+		ra, rb := new([]notifyRes), new([]notifyRes)
+		curA, curB = ra, rb
+		world := world
 		waiter := func(idx, calls int, res *[]notifyRes) func() string {
 			return func() string {
 				wctx := ctx
@@ -126,9 +130,9 @@ func ExploreNotify(newWorld func(sc NotifyScenario) NotifyWorld, initData string
 				return ""
 			}
 		}
-		c.Spawn("0", waiter(0, sc.CallsA, &resA))
+		c.Spawn("0", waiter(0, sc.CallsA, ra))
 		if two {
-			c.Spawn("1", waiter(1, sc.CallsB, &resB))
+			c.Spawn("1", waiter(1, sc.CallsB, rb))
 		}
 		c.Spawn("2", func() string {
 			for _, o := range sc.Ops {
@@ -145,6 +149,7 @@ func ExploreNotify(newWorld func(sc NotifyScenario) NotifyWorld, initData string
 	each := func(r Run) {
 		defer func() { release() }()
 		n++
+		resA, resB := *curA, *curB
 		var sched []string
 		sched = append(sched, r.Sched...)
 		var obs []string
